@@ -8,7 +8,7 @@ SERVER = os.path.join(framework.VERIF, 'build', 'cargo-ws', 'debug', 'svgbob_ser
 def free_port():
     s = socket.socket(); s.bind(('127.0.0.1', 0)); p = s.getsockname()[1]; s.close(); return p
 
-def request(port, method, path, body, timeout=30):
+def request(port, method, path, body, timeout=120):
     c = http.client.HTTPConnection('127.0.0.1', port, timeout=timeout)
     try:
         c.request(method, path, body=body, headers={'Content-Type': 'text/plain'} if body is not None else {})
@@ -135,7 +135,11 @@ class C20(Prop):
                 for _ in range(len(idx) // 8):
                     i = r2.choice(idx); m, pth, body = reqs[i]
                     try:
-                        st, data = request(port, m, pth, body)
+                        try:
+                            st, data = request(port, m, pth, body)
+                        except (socket.timeout, TimeoutError):
+                            # a busy machine is not a silent server: ask again and wait much longer before calling it unanswered
+                            st, data = request(port, m, pth, body, timeout=600)
                         with lock: check(i, st, data, 'concurrent (16 clients)')
                     except Exception as e:
                         with lock: failures.append({'failure': 'concurrent: no answer to %s %s: %s' % (m, pth, e)})
